@@ -40,8 +40,24 @@ PROPS = {
                         "compute_data_hash of chunks is checked by the C06 suite, here only by the harness monitor"],
     },
     "C06": {
-        "modules": ["XetProps.C06"],
+        "modules": ["XetProps.C06", "XetProps.C06Sens"],
+        "spec_ops": ["hash.", "hex.", "hashedwrite"],
         "theorems": [
+            "Xet.Merkle.C06_sensitivity",
+            "Xet.Merkle.C06_sensitivity_root",
+            "Xet.Merkle.C06_sensitivity_file",
+            "Xet.Merkle.C06_sensitivity_range",
+            "Xet.Merkle.C06_sensitivity_data",
+            "Xet.Merkle.C06_lens_functional_data",
+            "Xet.Merkle.C06_decimal_inj",
+            "Xet.Merkle.C06_nodeText_inj",
+            "Xet.Merkle.C06_hashNodeSeq_extract",
+            "Xet.Merkle.C06_tree_leaves",
+            "Xet.Merkle.C06_tree_hash",
+            "Xet.Merkle.C06_memo_irrelevant",
+            "Xet.Merkle.C06_memo_irrelevant_pure",
+            "Xet.Merkle.C06_memo_bridge",
+            "Xet.Merkle.C06_memo_bridge_hyp",
             "Xet.Merkle.C06_branching_ok",
             "Xet.Merkle.C06_level_shrinks",
             "Xet.Merkle.C06_merge_terminates",
@@ -53,7 +69,10 @@ PROPS = {
         ],
         "suites": ["hashes"],
         "level_text": "Theorems for every chunk list and every choice of hash primitives: producer xorb hash = validators' route, merge "
-                      "terminates with one root and every level shrinks, hex text form round-trips and is injective, the streaming HashedWrite "
+                      "terminates with one root and every level shrinks, sensitivity in collision-extraction form (two different non-empty chunk lists "
+                      "with equal xorb/file/range hash yield an explicit collision of a hash primitive, a leaf hash in the range of the interior "
+                      "hash, or the single-leaf length case - no injectivity of any hash is assumed), the memo database is irrelevant exactly "
+                      "under MemoConsistent, hex text form round-trips and is injective, the streaming HashedWrite "
                       "digest equals the one-shot hash for every pattern of short inner writes. 'Equals an independent implementation of the "
                       "published construction' is decided by the correspondence: an independent Lean BLAKE3 recomputes every data/internal/"
                       "xorb/file/range/hmac hash the Rust code produces.",
